@@ -118,6 +118,7 @@ void section(uint8_t type, uint8_t api, Section &s, const char *site, Body &&bod
     me->firstWatchedPark = 0;
     s.issue = spy::stamp();
     auto inside = [&] {
+        me->scope.store(0, std::memory_order_relaxed);
         s.park = me->firstWatchedPark;
         s.ret = spy::stamp();
         enterSection(type, site);
@@ -133,7 +134,9 @@ void section(uint8_t type, uint8_t api, Section &s, const char *site, Body &&bod
         }
         leaveSection(type);
         s.ucall = spy::stamp();
+        me->scope.store(1, std::memory_order_relaxed);
     };
+    me->scope.store(1, std::memory_order_relaxed);   // inside lock*/unlock* of the Resource under test
     if (api == 0) {
         if (type == R) { g.res->lockRead(); inside(); g.res->unlockRead(); }
         else { g.res->lockWrite(); inside(); g.res->unlockWrite(); }
@@ -141,6 +144,7 @@ void section(uint8_t type, uint8_t api, Section &s, const char *site, Body &&bod
         if (type == R) { ReadLock l{*g.res}; inside(); }
         else { WriteLock l{*g.res}; inside(); }
     }
+    me->scope.store(0, std::memory_order_relaxed);
     s.uret = spy::stamp();
 }
 
@@ -318,8 +322,8 @@ void runStress(uint64_t caseIdx, rt::Rng rng) {
     // unlock()), and sections are long: widens windows between a lock-free step and the mutex-protected one
     if (profile == 4) { d.beforeLock = 350; d.afterUnlock = 100; d.maxUs = 250; dwellUs = 150; }
     if (profile == 1) { d.afterWake = 300; d.maxUs = 150; }
-    else if (profile == 2) { d.afterWake = 150; d.condEntry = 100; d.beforeLock = 200; d.afterUnlock = 60; d.beforeNotify = 100; d.maxUs = 80; }
-    else if (profile == 3) { d.afterWake = 700; d.beforeLock = 60; d.maxUs = 400; d.threadStart = 300; }
+    else if (profile == 2) { d.afterWake = 150; d.condEntry = 100; d.beforeLock = 200; d.afterUnlock = 60; d.beforeNotify = 100; d.maxUs = 80; d.spurious = 80; }
+    else if (profile == 3) { d.afterWake = 700; d.beforeLock = 60; d.maxUs = 400; d.threadStart = 300; d.spurious = 200; }
     spy::configure(d, rt::mix(rt::st().seed, caseIdx));
     if (!profile) spy::disableDelays();
     spy::pinCpus(cpus, (int) rt::optInt("cpubase", 0));
@@ -435,7 +439,7 @@ void runPattern(uint64_t caseIdx, rt::Rng rng) {
     spy::Delays d;
     int profile = (int) rng.below(3);
     if (profile == 1) { d.afterWake = 400; d.maxUs = 200; }
-    else if (profile == 2) { d.afterWake = 200; d.condEntry = 150; d.beforeLock = 50; d.afterUnlock = 80; d.beforeNotify = 150; d.maxUs = 100; }
+    else if (profile == 2) { d.afterWake = 200; d.condEntry = 150; d.beforeLock = 50; d.afterUnlock = 80; d.beforeNotify = 150; d.maxUs = 100; d.spurious = 150; }
     spy::configure(d, rt::mix(rt::st().seed, caseIdx));
     if (!profile) spy::disableDelays();
     spy::pinCpus(cpus, (int) rt::optInt("cpubase", 0));
@@ -530,7 +534,7 @@ void runPattern(uint64_t caseIdx, rt::Rng rng) {
             if (s == 1 && spyIndex[i].load(std::memory_order_acquire) >= 0) {
                 spy::ThreadRec *t = spy::thread(spyIndex[i].load());
                 int p = t->park.load();
-                if ((p == spy::CondPre || p == spy::CondBlocked) && spy::watched(t->parkAddr.load())) break;
+                if ((p == spy::CondPre || p == spy::CondBlocked) && (spy::watched(t->parkAddr.load()) || t->scope.load())) break;
             }
             sched_yield();
         }
@@ -683,7 +687,7 @@ int main(int argc, char **argv) {
                    .kv("predictedParks", T.predictedParks).kv("predictedFast", T.predictedFast)
                    .kv("lateArrivalPatterns", T.lateArrivalPatterns).kv("lateArrivals", T.lateArrivals).kv("sectionsNestedInOtherResource", T.nestedSections.load()).kv("recursiveReadLocks", T.nestedSameResource.load()).kv("queuesDeeperThan64", T.deepQueues).kv("readerCrowdsOver255", T.readerCrowds).kv("marathonRequests", T.marathonRequests).kv("marathonReleasesWithQueue", T.marathonHandovers)
                    .kv("nontrivial", (uint64_t) T.fps.size())
-                   .kv("delaysAfterWake", k.afterWake.load()).kv("delaysCondEntry", k.condEntry.load())
+                   .kv("spuriousWakeupsInjected", k.spurious.load()).kv("delaysAfterWake", k.afterWake.load()).kv("delaysCondEntry", k.condEntry.load())
                    .kv("delaysOther", k.beforeLock.load() + k.afterUnlock.load() + k.beforeNotify.load() + k.threadStart.load())
                    .kv("condWaits", k.watchedCondWaits.load())
                    .raw("samples", rt::jsonArray(T.samples, false)));
